@@ -319,6 +319,13 @@ func (lc *LinkCtx) loop() {
 	}
 }
 
+// Connected reports whether the link's connect request has been seen.
+func (lc *LinkCtx) Connected() bool {
+	lc.mu.Lock()
+	defer lc.mu.Unlock()
+	return lc.Connect != nil
+}
+
 // Default is the cooperative handling of a client message.
 func (lc *LinkCtx) Default(m message.Message, unrel bool) {
 	b := lc.B
